@@ -131,10 +131,8 @@ func (pcounter *LogProcessCounterSet) RegisterCustomCounter(label string) func(l
 func (pcounter *LogProcessCounterSet) SelectMetricKeySet(record *LogRecord) *LogInputCounterSet {
 	tempKeys := pcounter.metricKeyExtractor.Extract(record)
 
-	tempMergedKey := pcounter.mergeKeyBuffer
-	for _, tkey := range tempKeys {
-		tempMergedKey = append(tempMergedKey, tkey...)
-	}
+	// length-prefixed, so that different key sets never share counters, e.g. ("ab","c") and ("a","bc")
+	tempMergedKey := util.AppendMergedKey(pcounter.mergeKeyBuffer, tempKeys)
 	pcounter.mergeKeyBuffer = tempMergedKey[:0]
 
 	// try to get existing counter by temp key, no new key string is created here
